@@ -61,6 +61,7 @@ func c09Gen(t *rapid.T, r *h.Rec) c09Case {
 	o := jsonOpts(av, onEx, onCl)
 	o.Unions, o.Recursion, o.Generics = 0, false, false
 	o.NoIgnoreTag = false
+	o.EmbedNamed = true
 	o.MaxDecls = 7
 	spec := synth.GenTypes(t, o)
 	c := c09Case{Spec: spec, Seed: int64(rapid.IntRange(1, 1<<30).Draw(t, "childSeed"))}
